@@ -42,6 +42,12 @@ def gen(rng):
     uid = L['uid']
     home = L['home']
     k = 0
+    if rng.random() < 0.2:
+        # the top directory of a volume is itself world-writable and sticky (a tmpfs like /tmp or /dev/shm, a shared scratch disk):
+        # the rules are about $topdir/.Trash, not about $topdir
+        for v in L['vols']:
+            if rng.random() < 0.7:
+                steps.append(['d', v, 0o1777])
     for v in L['vols']:
         s = L['trash'][v]['top']
         if s in ('sticky', 'nonsticky', 'nonsticky_sgid', 'nonsticky_suid', 'link_sticky', 'link_nonsticky'):
